@@ -9,13 +9,13 @@ package jsonrpc
 //@ property C09 units: (*handler).handleReader$1, (*handler).handleReader$2, (*wsConn).handleCall$1, (*RPCServer).HandleRequest, (*handler).handleReader, (*handler).handle, (*handler).handle$1, rpcError, rpcError$1, (response).MarshalJSON, normalizeID, withLazyWriter, (*wsConn).handleCall, (*wsConn).handleOutChans$1
 //@ property C12 units: WithMethodNameFormatter$1, WithServerMethodNameFormatter$1, NewServer, (*RPCServer).Register, NewMergeClient, makeHandler, (*handler).register, (*handler).handle, processFuncOut, (*client).makeRpcFunc, NewMethodNameFormatter$1, (*RPCServer).AliasMethod, WithClientHandlerAlias$1
 //@ property C14 units: (*wsConn).setupPings$1, (*wsConn).setupPings$2, (*wsConn).setupPings$5$1, (*deadlineResetReader).Read, (*wsConn).nextWriter, (*wsConn).sendRequest, (*wsConn).setupPings, (*wsConn).setupPings$4, (*wsConn).handleWsConn, (*wsConn).tryReconnect, (*wsConn).tryReconnect$1, (*wsConn).handleOutChans, (*wsConn).handleCtxAsync, (*wsConn).nextMessage, (*wsConn).handleResponse, (*wsConn).handleCall, (*wsConn).handleCall$3, (*wsConn).cancelCtx, (*wsConn).handleChanMessage, (*wsConn).handleChanClose, (*wsConn).closeInFlight, (*wsConn).closeChans, (*wsConn).readFrame, (*wsConn).resetReadDeadline, withLazyWriter, (*lazyWriter).Write, (*lazyWriter).Write$1$1
-//@ property C05 units: WithReconnectBackoff$1, WithNoReconnect$1, websocketClient$1, (*RPCConnectionError).Error, (*RPCConnectionError).Unwrap, WithErrors$1, NewErrors, (*JSONRPCError).val, (*backoff).next, (*wsConn).tryReconnect, (*wsConn).tryReconnect$1, (*wsConn).handleWsConn, websocketClient, (*rpcFunc).handleRpcCall
-//@ property C03 units: websocketClient$3, (*client).setupRequestChan, (*deadlineResetReader).Read, (*wsConn).resetReadDeadline, (*wsConn).handleWsConn, (*wsConn).tryReconnect, (*wsConn).tryReconnect$1, (*wsConn).closeInFlight, (*wsConn).nextMessage, (*wsConn).readFrame, (*client).setupRequestChan$1, (*wsConn).sendRequest
+//@ property C05 units: WithReconnectBackoff$1, WithNoReconnect$1, websocketClient$1, (*RPCConnectionError).Error, (*RPCConnectionError).Unwrap, WithErrors$1, NewErrors, (*JSONRPCError).val, (*backoff).next, (*wsConn).tryReconnect, (*wsConn).tryReconnect$1, (*wsConn).handleWsConn, websocketClient, (*rpcFunc).handleRpcCall, (*wsConn).closeInFlight
+//@ property C03 units: websocketClient$3, (*client).setupRequestChan, (*deadlineResetReader).Read, (*wsConn).resetReadDeadline, (*wsConn).handleWsConn, (*wsConn).tryReconnect, (*wsConn).tryReconnect$1, (*wsConn).closeInFlight, (*wsConn).nextMessage, (*wsConn).readFrame, (*client).setupRequestChan$1, (*wsConn).sendRequest, (*wsConn).handleResponse
 //@ property C02 units: (*rpcFunc).handleRpcCall, normalizeID, (*client).makeRpcFunc, (*client).setupRequestChan$1, httpClient$1, NewCustomClient$1, (*wsConn).handleWsConn, (*wsConn).handleResponse, (*wsConn).closeInFlight, (*wsConn).frameExecutor, (*wsConn).handleFrame, (*wsConn).handleCall, (*handler).handle, rpcError$1
 //@ property C04 units: (*rpcFunc).handleRpcCall, (*client).makeRpcFunc, (*client).provide, httpClient$1, (*wsConn).handleWsConn, (*wsConn).frameExecutor, (*wsConn).handleFrame, (*wsConn).handleCall, (*handler).handle, (*wsConn).closeInFlight, (*wsConn).closeChans, (*wsConn).tryReconnect, (*wsConn).tryReconnect$1
 //@ property C06 units: (*client).setupRequestChan$1, (*wsConn).handleCtxAsync, (*wsConn).handleResponse, (*wsConn).cancelCtx, (*wsConn).handleCall, (*wsConn).handleCall$2, (*wsConn).handleCall$3, (*handler).handle, (*wsConn).closeInFlight, (*RPCServer).ServeHTTP, (*handler).handleReader, httpClient$1, (*wsConn).handleFrame
 //@ property C15 units: (*handler).handleReader$1, (*wsConn).handleCall$1, (*lazyWriter).Write$1, websocketClient$2$1, (*RPCServer).handleWS$1, (*wsConn).handleWsConn, (*wsConn).handleCall, (*wsConn).closeInFlight, (*wsConn).nextWriter, (*wsConn).readFrame, (*wsConn).frameExecutor, (*client).sendRequest, (*client).setupRequestChan$1, (*wsConn).handleOutChans, (*wsConn).handleChanOut, withLazyWriter, (*lazyWriter).Write, (*lazyWriter).Write$1$1, (*RPCServer).handleWS
-//@ property C16 units: WithClientHandler$1, websocketClient$2$1, WithReverseClient$1$1, ExtractReverseClient, (*RPCServer).handleWS, (*RPCServer).ServeHTTP, (*client).setupRequestChan$1, (*wsConn).handleChanOut, websocketClient, WithClientHandlerAlias$1, (*wsConn).closeInFlight, (*wsConn).handleWsConn
+//@ property C16 units: WithClientHandler$1, websocketClient$2$1, WithReverseClient$1$1, ExtractReverseClient, (*RPCServer).handleWS, (*RPCServer).ServeHTTP, (*client).setupRequestChan$1, (*wsConn).handleChanOut, websocketClient, WithClientHandlerAlias$1, (*wsConn).closeInFlight, (*wsConn).handleWsConn, (*wsConn).handleCall
 //@ property C07 units: (*client).makeOutChan$1, (*client).setupRequestChan, (*wsConn).handleOutChans, (*wsConn).handleOutChans$1, (*wsConn).handleChanOut, (*handler).handle, (*wsConn).handleResponse, (*wsConn).handleChanMessage, (*client).makeOutChan$1$1, (*client).makeOutChan$1$2, (*wsConn).handleFrame
 //@ property C08 units: (*client).makeOutChan$1, (*wsConn).setupPings$5$1, (*wsConn).handleChanOut, (*wsConn).handleOutChans, (*wsConn).handleChanClose, (*wsConn).closeChans, (*wsConn).handleChanMessage, (*wsConn).tryReconnect, (*wsConn).handleWsConn, (*client).makeOutChan$1$1, (*client).makeOutChan$1$2, (*wsConn).handleResponse
 //@ property C11 units: (*ErrClient).Error, (*ErrClient).Unwrap, WithErrors$1, WithServerErrors$1, (*client).setupRequestChan$1, (*handler).createError, (*Errors).Register, NewErrors, (*JSONRPCError).val, (*JSONRPCError).Error, (*rpcFunc).processResponse, (*rpcFunc).processError, (*handler).handle, (response).MarshalJSON, processFuncOut, (*wsConn).handleResponse
@@ -53,6 +53,19 @@ package jsonrpc
 //@ unsync wsConn.incoming: replaced by the connection loop only while no reader goroutine is running (not checked)
 //@ unsync wsConn.chanCtr: accessed with sync/atomic only
 //@ -- prohibitions: these calls do not occur in the module; introducing one breaks the stated discipline
+//@ -- module-wide rules (global ...) of these properties are checked in EVERY function of the module, not only in the
+//@ -- units listed above: code added anywhere (a new helper, a new goroutine body, a callback) is held to them too
+//@ sweep C14, C02, C03, C04, C05, C06, C07, C08, C13, C15, C16
+//@ -- ownership of the connection tables: which function may change which table (module-wide frame conditions)
+//@ global at mapdel wsConn.inflight: assert a-call-is-forgotten-only-once-answered: infunc("(*wsConn).handleResponse") [C02,C03,C16,C05]
+//@ global at mapset wsConn.inflight: assert calls-are-registered-only-by-the-connection-loop: infunc("(*wsConn).handleWsConn") [C02,C03]
+//@ global at store wsConn.inflight: assert in-flight-table-replaced-only-at-start-or-after-failing-all: infunc("(*wsConn).handleWsConn|(*wsConn).closeInFlight") [C02,C03,C05]
+//@ global at mapdel wsConn.chanHandlers: assert a-stream-is-forgotten-only-when-closed: infunc("(*wsConn).handleChanClose|(*wsConn).closeChans") [C08,C07]
+//@ global at mapset wsConn.chanHandlers: assert streams-are-registered-only-by-the-subscribing-response: infunc("(*wsConn).handleResponse") [C08,C07]
+//@ global at mapdel wsConn.handling: assert a-handler-context-is-forgotten-only-when-its-call-is-done: infunc("(*wsConn).handleCall$3") [C06,C15]
+//@ global at mapset wsConn.handling: assert handler-contexts-are-registered-only-at-dispatch: infunc("(*wsConn).handleCall") [C06,C15]
+//@ global at call (*wsConn).resetReadDeadline: assert read-deadline-extended-only-where-the-peer-was-heard: infunc("(*wsConn).nextMessage|(*wsConn).handleWsConn") [C03]
+//@ global at call (reflect.Value).Call: assert user-code-runs-only-under-the-panic-guard: infunc("doCall|auth.PermissionedProxy$1") [C13,C04]
 //@ global-forbid at call (*github.com/gorilla/websocket.Conn).WriteControl: assert control-frames-also-under-writeLk: heldclass("wsConn.writeLk") [C14]
 //@ global-forbid at call (*github.com/gorilla/websocket.Conn).SetWriteDeadline: assert no-sticky-write-deadline-shared-by-all-writers: false [C14]
 //@ global-forbid at call sync/atomic.StoreUint64: assert channel-id-counter-only-grows: false [C07,C08]
@@ -135,6 +148,7 @@ package jsonrpc
 //@   ghost sendErr : U = nil
 //@   at ret sendRequest: set sendErr = $result0
 //@   ensures keepalive-stopped-when-the-loop-ends: calls(stopPings) >= 1 [C15]
+//@   at call (*wsConn).resetReadDeadline: assert deadline-extended-only-by-a-pong: action == "pong" [C03]
 //@   loop 1 invariant reader-channel: c.incoming != nil && chancap(c.incoming) == 0 [C03,C10]
 //@   ensures exits-only-for-a-cause: branch == 1 || branch == 2 || ((branch == 3 || branch == 4) && reconnectFailed) || (branch == 3 && err == nil) || (branch == 5 && c.connFactory == nil) [C03,C05]
 //@   at store wsConn.readError: assert read-failure-report-never-blocks-a-dead-loop: chancap($val) >= 1 [C15,C03]
@@ -207,8 +221,8 @@ package jsonrpc
 //@   at send req.ready: assert fails-with-temporary-error: $val.Error != nil && $val.Error.Code == -1111111 && $val.ID == id && $val.Result == nil && $chan == tbl[id].ready && present(tbl, id) [C03,C04]
 //@   at send req.ready: update failedCall($val.ID) := true
 //@   loop 1 invariant every-visited-call-failed: c.inflight == tbl && (forall k: U :: visited(1, k) ==> failedCall(k)) [C03]
-//@   at store wsConn.inflight: assert all-in-flight-calls-failed-before-reset: forall k: U :: present(tbl, k) ==> failedCall(k) [C03]
-//@   at store wsConn.inflight: assert table-reset-to-empty: forall k: U :: !present($val, k) [C03]
+//@   at store wsConn.inflight: assert all-in-flight-calls-failed-before-reset: forall k: U :: present(tbl, k) ==> failedCall(k) [C03,C05]
+//@   at store wsConn.inflight: assert table-reset-to-empty: forall k: U :: !present($val, k) [C03,C05]
 //@   at rangenext wsConn.handling: let hk = $key
 //@   at dyncall cancel: assert cancels-registered-handler: $callee == htbl[hk] && present(htbl, hk) [C15,C06]
 //@   at dyncall cancel: update cancelledCall(hk) := true
@@ -290,11 +304,11 @@ package jsonrpc
 //@   at send req.ready: assert delivers-the-frame-unchanged: $val.ID == frame.ID && $val.Result == frame.Result && $val.Error == frame.Error && $val.Jsonrpc == frame.Jsonrpc [C02,C01,C11]
 //@   at send req.ready: inc deliveries
 //@   ghost deletions : Int = 0
-//@   at mapdel wsConn.inflight: assert removes-exactly-the-answered-call: $key == frame.ID && deliveries == 1 [C02]
+//@   at mapdel wsConn.inflight: assert removes-exactly-the-answered-call: $key == frame.ID && deliveries == 1 [C02,C03]
 //@   at mapdel wsConn.inflight: inc deletions
 //@   at mapset wsConn.chanHandlers: assert sink-registered-before-call-completes: deliveries == 0 && $val != nil && $val.cb != nil [C07,C08]
 //@   at go handleCtxAsync: assert cancel-watcher-carries-request-id: $2 == frame.ID && calls(retCh) == 1 [C06]
-//@   ensures at-most-one-delivery: deliveries <= 1 && (deliveries == 1) == (deletions == 1) [C02]
+//@   ensures at-most-one-delivery: deliveries <= 1 && (deliveries == 1) == (deletions == 1) [C02,C03]
 
 //@ func (*wsConn).handleCall
 //@   requires idok(frame.ID)
@@ -306,7 +320,7 @@ package jsonrpc
 //@   at mapset wsConn.handling: assert registers-own-cancel-under-own-id: $key == frame.ID && $val == hcancel [C06]
 //@   at go handle: assert handler-runs-with-derived-context: $1 == hctx && calls(WithCancel) == 1 [C06,C15]
 //@   at go handle: assert done-matches-id: (frame.ID != nil) == isfn($5, "(*wsConn).handleCall$3") && (frame.ID == nil) == isfn($5, "(*wsConn).handleCall$2") [C06]
-//@   ensures one-handler-goroutine-per-call: c.handler != nil ==> spawnedCount(handle) == 1 [C04]
+//@   ensures one-handler-goroutine-per-call: c.handler != nil ==> spawnedCount(handle) == 1 [C04,C16]
 //@   at go handle: assert context-registered-before-start: frame.ID != nil ==> calls(Lock) == 1 && calls(Unlock) == 1 [C06]
 //@   at go handle: assert request-copied-from-frame: $2.ID == frame.ID && $2.Method == frame.Method && $2.Params == frame.Params && $2.Jsonrpc == frame.Jsonrpc [C09,C01,C02]
 
@@ -329,7 +343,7 @@ package jsonrpc
 //@   at recv c.frameExecQueue: set handled = 0
 //@   at recv c.frameExecQueue: let buf0 = $val
 //@   at call encoding/json.Unmarshal: assert decodes-the-dequeued-frame: $0 == buf0 [C02,C04]
-//@   at call encoding/json.Unmarshal: assert decodes-into-a-zeroed-frame: frame.ID == nil && frame.Method == "" && len(frame.Params) == 0 && len(frame.Result) == 0 && frame.Error == nil && frame.Meta == nil [C04,C02,C09]
+//@   at call encoding/json.Unmarshal: assert decodes-into-a-zeroed-frame: frame.ID == nil && frame.Method == "" && len(frame.Params) == 0 && len(frame.Result) == 0 && cap(frame.Result) == 0 && cap(frame.Params) == 0 && frame.Error == nil && frame.Meta == nil [C04,C02,C09]
 //@   at call handleFrame: assert each-frame-dispatched-at-most-once: handled == 0 && idok($2.ID) [C02,C04,C10]
 //@   ghost uerr : U = nil
 //@   ghost nerr : U = nil
@@ -408,12 +422,12 @@ package jsonrpc
 //@   modifies nothing
 //@   requires rpcError != nil && w != nil && done != nil && handlersOK(s)
 //@   loop 1 invariant param-index: i >= 0 [C10,C01,C12]
-//@   loop 1 invariant params-decoded-positionally: len(callParams) == 1 + handler.hasCtx + handler.nParams && callParams[0] == handler.receiver && (forall k :: 0 <= k && k < i ==> (!present(s.paramDecoders, handler.paramReceivers[k]) ==> callParams[k + 1 + handler.hasCtx] == valueOf(ifaceOf(elemOf(newOf(handler.paramReceivers[k])))))) [C01]
+//@   loop 1 invariant params-decoded-positionally: len(callParams) == 1 + handler.hasCtx + handler.nParams && callParams[0] == handler.receiver && (forall k :: 0 <= k && k < i ==> (!present(s.paramDecoders, handler.paramReceivers[k]) ==> callParams[k + 1 + handler.hasCtx] == valueOf(ifaceOf(elemOf(newOf(handler.paramReceivers[k])))))) [C01,C12]
 //@   at call bytes.NewReader: assert decodes-the-ith-positional-param: $0 == ps[i].data [C01,C12]
-//@   at call reflect.New: assert decodes-into-the-declared-parameter-type: $0 == handler.paramReceivers[i] [C01]
-//@   at call (*encoding/json.Decoder).Decode: assert decodes-into-the-fresh-value: $1 == ifaceOf(newOf(handler.paramReceivers[i])) [C01]
+//@   at call reflect.New: assert decodes-into-the-declared-parameter-type: $0 == handler.paramReceivers[i] [C01,C12]
+//@   at call (*encoding/json.Decoder).Decode: assert decodes-into-the-fresh-value: $1 == ifaceOf(newOf(handler.paramReceivers[i])) [C01,C12]
 //@   at call doCall: assert call-arguments-positional: len($2) == 1 + handler.hasCtx + handler.nParams && $2[0] == handler.receiver && $2 == callParams [C01]
-//@   at call reflect.ValueOf: assert raw-params-passed-verbatim: boxedas($0, #RawParams) ==> handler.hasRawParams && unbox($0, #RawParams) == req.Params [C01]
+//@   at call reflect.ValueOf: assert raw-params-passed-verbatim: boxedas($0, #RawParams) ==> handler.hasRawParams && unbox($0, #RawParams) == old(req.Params) [C01]
 //@   at call withLazyWriter: assert result-is-the-handlers-value-output: resp.Error == nil && handler.valOut != -1 ==> resp.Result == ifaceOf(callResult[handler.valOut]) [C01,C11]
 //@   ghost callErr : U = nil
 //@   at ret doCall: set callErr = $result1
@@ -421,7 +435,7 @@ package jsonrpc
 //@   ghost lastKeep : Bool = false
 //@   at dyncall done: set lastKeep = $0
 //@   ensures streams-keep-their-context: defined(outCh) ==> lastKeep == outCh [C06,C15]
-//@   ensures unresolved-calls-release-context: !resolvable(s, req.Method) ==> !lastKeep [C06]
+//@   ensures unresolved-calls-release-context: !resolvable(s, old(req.Method)) ==> !lastKeep [C06]
 //@   ghost released : Bool = false
 //@   at dyncall done: set released = released || !$0
 //@   ensures arity-rejected-calls-release-context: rpcCode == -32602 ==> released [C06,C15]
@@ -429,30 +443,30 @@ package jsonrpc
 //@   ghost chanDeferred : Bool = false
 //@   at call dyn:rpcError: set rpcCode = $2
 //@   at ret dyn:chOut: set chanDeferred = $result0 == nil
-//@   at call dyn:rpcError: assert error-reply-names-request: $1 != nil && $1.ID == req.ID && $0 == w [C09,C02]
-//@   at call withLazyWriter: assert reply-echoes-id-and-version: resp.ID == req.ID && resp.Jsonrpc == "2.0" && $0 == w [C09,C02]
-//@   at call withLazyWriter: assert reply-only-for-id-bearing: req.ID != nil [C09,C04]
+//@   at call dyn:rpcError: assert error-reply-names-request: $1 != nil && $1.ID == old(req.ID) && $0 == w [C09,C02]
+//@   at call withLazyWriter: assert reply-echoes-id-and-version: resp.ID == old(req.ID) && resp.Jsonrpc == "2.0" && $0 == w [C09,C02]
+//@   at call withLazyWriter: assert reply-only-for-id-bearing: old(req.ID) != nil [C09,C04]
 //@   at call withLazyWriter: assert error-reply-carries-no-result: resp.Error != nil ==> resp.Result == nil [C11,C09]
 //@   at store JSONRPCError.Code: assert internal-failures-use-the-generic-code: $val == 1 [C11]
 //@   at call createError: assert error-built-from-the-handlers-error-output: calls(doCall) == 1 && handler.errOut != -1 [C11]
-//@   at call doCall: assert dispatches-selected-handler: $1 == selected(s, req.Method).handlerFunc && $0 == req.Method && resolvable(s, req.Method) [C12,C01]
+//@   at call doCall: assert dispatches-selected-handler: $1 == selected(s, old(req.Method)).handlerFunc && $0 == old(req.Method) && resolvable(s, old(req.Method)) [C12,C01]
 //@   at call doCall: assert arity-checked-before-call: handler.hasRawParams || (defined(ps) && len(ps) == handler.nParams) [C12,C09]
 //@   ghost paramsDecoded : Bool = false
-//@   at call encoding/json.Unmarshal: assert decodes-the-requests-params: $0 == req.Params [C12,C01]
+//@   at call encoding/json.Unmarshal: assert decodes-the-requests-params: $0 == old(req.Params) [C12,C01]
 //@   at ret encoding/json.Unmarshal: set paramsDecoded = true
-//@   at call doCall: assert counted-params-are-the-requests-params: handler.hasRawParams || len(req.Params) == 0 || paramsDecoded [C12,C09,C01]
+//@   at call doCall: assert counted-params-are-the-requests-params: handler.hasRawParams || len(old(req.Params)) == 0 || paramsDecoded [C12,C09,C01]
 //@   at call doCall: assert nothing-rejected-before-call: calls(rpcError) == 0 && calls(doCall) == 0 [C12,C04,C09]
 //@   ensures at-most-one-reply: calls(rpcError) + calls(withLazyWriter) <= 1 [C09,C02]
-//@   ensures id-bearing-gets-exactly-one-reply: req.ID != nil && !chanDeferred ==> calls(rpcError) + calls(withLazyWriter) == 1 [C09,C02]
+//@   ensures id-bearing-gets-exactly-one-reply: old(req.ID) != nil && !chanDeferred ==> calls(rpcError) + calls(withLazyWriter) == 1 [C09,C02]
 //@   ensures channel-reply-left-to-forwarder: chanDeferred ==> calls(rpcError) + calls(withLazyWriter) == 0 [C09,C07]
-//@   ensures unknown-method-is-32601-and-not-run: !resolvable(s, req.Method) ==> rpcCode == -32601 && calls(rpcError) == 1 && calls(doCall) == 0 [C09,C12]
+//@   ensures unknown-method-is-32601-and-not-run: !resolvable(s, old(req.Method)) ==> rpcCode == -32601 && calls(rpcError) == 1 && calls(doCall) == 0 [C09,C12]
 //@   ensures protocol-errors-never-run-handler: (rpcCode == -32601 || rpcCode == -32602 || rpcCode == -32700) ==> calls(doCall) == 0 [C09,C12]
 //@   ghost lastMsg : U = nil
 //@   at call fmt.Errorf: set lastMsg = $0
 //@   at call xerrors.Errorf: set lastMsg = $0
-//@   at call dyn:rpcError: assert codes-match-causes: (lastMsg == "wrong param count (method '%s'): %d != %d" ==> $2 == -32602) && (lastMsg == "method '%s' not found" ==> $2 == -32601) && ($2 == -32602 ==> len(ps) != handler.nParams) && ($2 == -32601 ==> !resolvable(s, req.Method) || chOut == nil) && ($2 == 0 ==> callErr != nil) [C09,C12]
+//@   at call dyn:rpcError: assert codes-match-causes: (lastMsg == "wrong param count (method '%s'): %d != %d" ==> $2 == -32602) && (lastMsg == "method '%s' not found" ==> $2 == -32601) && ($2 == -32602 ==> len(ps) != handler.nParams) && ($2 == -32601 ==> !resolvable(s, old(req.Method)) || chOut == nil) && ($2 == 0 ==> callErr != nil) [C09,C12]
 //@   loop 1 invariant arity-checked-before-decoding: len(ps) == handler.nParams [C09,C12]
-//@   loop 1 invariant nothing-replied-or-run-yet: rpcCode == 0 && calls(rpcError) == 0 && calls(doCall) == 0 && calls(withLazyWriter) == 0 && callErr == nil && !chanDeferred && (len(req.Params) == 0 || paramsDecoded) [C09,C12,C13,C04]
+//@   loop 1 invariant nothing-replied-or-run-yet: rpcCode == 0 && calls(rpcError) == 0 && calls(doCall) == 0 && calls(withLazyWriter) == 0 && callErr == nil && !chanDeferred && (len(old(req.Params)) == 0 || paramsDecoded) [C09,C12,C13,C04]
 //@   ensures panic-gets-one-error-reply: callErr != nil ==> calls(rpcError) == 1 && calls(withLazyWriter) == 0 [C13,C09]
 //@   nopanic [C10]
 
@@ -501,6 +515,8 @@ package jsonrpc
 //@   at ret (marshalable).MarshalJSON: set marshalErr = $result1
 //@   at ret (marshalable).MarshalJSON: set marshalTried = true
 //@   at ret (marshalable).MarshalJSON: let meta = $result0
+//@   at call (marshalable).MarshalJSON: assert codec-errors-never-take-the-generic-path: !istype(old(err), #RPCErrorCodec) [C11]
+//@   ensures codec-consulted-for-codec-errors: istype(old(err), #RPCErrorCodec) ==> convTried [C11]
 //@   ensures codec-output-used-when-conversion-succeeds: convTried && convErr == nil ==> result.Code == conv.Code && result.Message == conv.Message && result.Data == conv.Data && result.Meta == conv.Meta [C11]
 //@   ensures generic-error-keeps-code-and-message: !(convTried && convErr == nil) ==> result.Message == msg && result.Code == ite(s.errors != nil && present(s.errors.byType, dynT), s.errors.byType[dynT], 1) && result.Data == nil [C11]
 //@   ensures marshalled-meta-attached: marshalTried && marshalErr == nil ==> result.Meta == meta [C11]
